@@ -276,6 +276,65 @@ def expand(ranges, limit=0x110000):
     return s
 
 
+def rule_r1b(F, rep):
+    """bulk copies: an escaper that copies its whole input in one go must have established that no character needs escaping"""
+    from . import prov, strpred
+    from .dfa import DFA
+    R = rep.rule("C05.R1b", "an escaper never copies its input wholesale unless the test that guards the copy rules out every "
+                 "character the per-character table escapes: the language of inputs reaching a `push_str(input)` (built from the "
+                 "guard's byte/char class tests) contains only characters the loop would have emitted raw")
+    n = 0
+    for q in (ESC_JSON, ESC_PY, ESC_TOML):
+        fn = F.fn(q)
+        body = fn.body
+        P = prov.Prov(F, body)
+        sinks = {}
+        for bb, t in body.calls():
+            nm = callee_name(t) or ""
+            if nm in ("<alloc::string::String>::push_str", "<alloc::string::String>::insert_str",
+                      "<alloc::string::String as core::iter::traits::collect::Extend>::extend") or nm.endswith("Extend>::extend"):
+                o = P.origins_op(t["xs"][-1])
+                if any(x and x[0] == "arg" and x[1] == 1 for x in o):
+                    sinks[bb] = nm
+        n += 1
+        if not sinks:
+            rep.ob(R, "%s|no-bulk-copy" % fn.q, True)
+            continue
+        rep.fn(fn)
+        res = escaper_table(F, rep, fn)
+        rows, how = res
+        while isinstance(rows, tuple):
+            rows, _ = rows
+        raw_ok = []
+        cuts = set()
+        for (a, b), outs in rows:
+            cuts.add(a)
+            cuts.add(b + 1)
+            ems = {classify_emission(m) for k, m, _ in outs if k == "stop"}
+            if ems == {("raw",)}:
+                raw_ok.append((a, b))
+        ex = strpred.Extract(F, rep, fn, lambda clo: closure_bool_table(F, rep, clo, "char"), extra_cuts=cuts,
+                             byte_table=lambda clo: closure_bool_table(F, rep, clo, "u8"))
+        reached = ex.run(sinks=set(sinks))
+        al = ex.al
+        okset = al.syms_of(lambda cp: any(a <= cp <= b for a, b in raw_ok))
+        for bb, nm in sorted(sinks.items()):
+            if bb not in reached:
+                rep.ob(R, "%s|bulk@bb%d" % (fn.q, bb), False)
+                rep.violation(R, "%s|bulk-copy|undecided" % fn.q, "%s copies its input with %s at a point whose guard could not be "
+                              "turned into a character condition (after a loop, or behind an unmodelled test)" % (fn.q, nm), fn.loc)
+                continue
+            bad = reached[bb] & DFA.every_char_in(al, okset).complement()
+            w = bad.shortest()
+            rep.ob(R, "%s|bulk@bb%d" % (fn.q, bb), w is None, {"escaper": fn.q, "guard_atoms": ex.atoms})
+            if w is not None:
+                rep.violation(R, "%s|bulk-copy|unescaped" % fn.q,
+                              "%s copies its whole input with %s for inputs such as %r, which contain a character the "
+                              "per-character table escapes: the fast path and the loop disagree (guard: %s)"
+                              % (fn.q, nm, bad.show(w), ex.atoms), fn.loc, {"witness": bad.show(w)})
+    rep.floor(R, n, 3, "escapers")
+
+
 def rule_r5(F, rep):
     R = rep.rule("C05.R5", "bare (unquoted) keys are only emitted for names inside the target grammar's "
                  "bare-key alphabet: TOML [A-Za-z0-9_-] and non-empty; YAML plain keys within [0-9A-Za-z/_.-]")
@@ -583,6 +642,7 @@ def rule_r6(F, rep):
 
 def run(F, rep, tier):
     rule_r1(F, rep)
+    rule_r1b(F, rep)
     rule_r5(F, rep)
     from . import c05_flow
     c05_flow.run(F, rep)
